@@ -1151,7 +1151,9 @@ type apkCache struct {
 }
 
 func (c *apkCache) get(ctx context.Context, a *APK, pkg InstallablePackage) (*expandapk.APKExpanded, error) {
-	u := pkg.URL()
+	// Key by URL and expected checksum: an expansion that was verified against one
+	// checksum must not be handed to a request that expects another one.
+	u := pkg.URL() + "@" + pkg.ChecksumString()
 	// Do all the expensive things inside the once.
 	once, _ := c.onces.LoadOrStore(u, &sync.Once{})
 	once.(*sync.Once).Do(func() {
